@@ -232,6 +232,15 @@ def r2_alignment(ctx):
     cp = [x for x in walk_shallow(init) if isinstance(x, ast.Assign) and any(is_self_attr(t, "_cross_pows") for t in x.targets)]
     ok = len(cp) == 1 and unparse(cp[0].value).startswith("OrderedDict(zip(") and "map(Counter, str_interactions)" in unparse(cp[0].value)
     ctx.ob("C20.R2", ENC, "InteractionsEncoder.__init__", cp[0] if cp else init, "terms are kept in the order given, each as namespace -> power", ok, stmt="_cross_pows order")
+    # keys and values of the term table are zipped from the SAME list (the string terms): zipping the full interaction list (numeric constants
+    # included) against the string terms mis-aligns them and lets equal constants overwrite each other
+    z = [c for c in ast.walk(cp[0].value) if isinstance(c, ast.Call) and call_name(c) == "zip"] if cp else []
+    okz = False
+    if z and len(z[0].args) == 2:
+        k_src = unparse(z[0].args[0])
+        v_srcs = {n.id for n in ast.walk(z[0].args[1]) if isinstance(n, ast.Name)} - {"OrderedDict", "Counter", "map", "dict"}
+        okz = k_src in v_srcs
+    ctx.ob("C20.R2", ENC, "InteractionsEncoder.__init__", cp[0] if cp else init, "the term table is keyed by the same list its per-term powers are computed from", okz, stmt="_cross_pows keys")
 
 
 def r3_none_normalisation(ctx):
@@ -331,6 +340,7 @@ def _lossy_reduce(tree):
 
 
 CONTROLS = [
+    ("term table keyed by the full interaction list", ENC, M.replace_expr("InteractionsEncoder.__init__", "zip(str_interactions, map(OrderedDict, map(Counter, str_interactions)))", "zip(interactions, map(OrderedDict, map(Counter, str_interactions)))"), "C20.R2"),
     ("encoder rebuilt from its namespace letters on copy", ENC, _lossy_reduce, "C20.R5"),
     ("_pows remembers its last argument", ENC, _memo_pows, "C20.R5"),
     ("Sparse registers dict only", "coba/primitives.py", lambda tree: __import__("cobastatic.rules.c16", fromlist=["_reg_dict"])._reg_dict(tree), "C20.R5"),
